@@ -27,10 +27,13 @@ CLAIMED = {
         "equality with the GETNEXT walk for repetition counts > 1 is checked by the oracle and correspondence, not proved; truncation policies keep >= 1 binding per response",
     ),
     "C03": (
-        "proof (partial): fetcher-level progress (any accepted response advances every column) and the ending prescribed for "
-        "a non-advancing answer (strict/lenient, first and later requests) proved for arbitrary exchange functions; traces "
-        "against all agent functions over a 3-OID universe and random scripted agents correspond",
-        "the |U|+2 bound itself is checked by the oracle on the implementation, its Lean proof is pending",
+        "proof: on the Python-faithful model, for an ARBITRARY exchange function and pairwise disjoint roots: the "
+        "GETNEXT walk never requests an OID twice, continues only from OIDs the agent returned, issues at most |U|+1 "
+        "requests (U = OIDs the agent ever returns) and cannot be stopped by the loop budget (C03_getnext_bound); a "
+        "non-advancing answer is refused as FaultySNMPImplementation and ends the walk at once, strict or lenient; "
+        "bulk fetcher: first-repetition progress proved; traces against all agent functions over a 3-OID universe and "
+        "random scripted agents correspond (GETNEXT and bulk)",
+        "the |U|+1 bound for the bulk walk is checked by the oracle and correspondence on the implementation, its Lean proof (multi-row regrouping) is not done; nested roots are outside the theorem",
     ),
     "C04": (
         "proof: result of every single-exchange operation stated outright as a function of the accepted response (values in "
